@@ -157,7 +157,16 @@ static PCase decode(Src &s) {
         g.ownCode = s.coin() ? -221 : -240;
         c.sigs.push_back(g);
     }
-    int nu = (int) s.weighted({5, 2, 1}) + 1;
+    bool longList = !s.prob(39, 40);
+    if (longList) {
+        // a list longer than any 8-bit bookkeeping holds (an uploaded trace): one array reader or a run of scalar readers, then one more
+        Sig g; int n = (int) s.range(250, 400);
+        if (s.coin()) { Reader r; r.kind = s.pick(std::vector<RKind>{R_ARR_I32, R_ARR_U32, R_ARR_F64}); r.n = n; g.readers.push_back(r); }
+        else for (int k = 0; k < n; k++) { Reader r; r.kind = s.coin() ? R_I32 : R_F64; g.readers.push_back(r); }
+        { Reader r; r.kind = R_I32; r.mandatory = s.coin(); g.readers.push_back(r); }
+        c.sigs.assign(1, g); nsig = 1;
+    }
+    int nu = longList ? 1 : (int) s.weighted({5, 2, 1}) + 1;
     DatumOpt dopt; dopt.allowTerminatorBytes = false;    // CR/LF inside strings is C08's listed finding; keep C05 about parameters
     for (int u = 0; u < nu; u++) {
         PUnit pu; pu.entry = (int) s.range(0, (uint64_t) nsig - 1);
@@ -168,6 +177,12 @@ static PCase decode(Src &s) {
             if (!r.mandatory && s.prob(1, 3)) break;
             for (int j = 0; j < n; j++) pu.items.push_back(genDatum(s, compatibleKind(s, r), dopt));
         }
+        if (longList) {
+            // compatible list as generated (an array reader takes its full length here), now and then one item short or one too many
+            pu.items.clear();
+            for (auto &r : g.readers) { int n = (r.kind == R_ARR_I32 || r.kind == R_ARR_U32 || r.kind == R_ARR_F64) ? r.n : 1; for (int j = 0; j < n; j++) pu.items.push_back(genDatum(s, D_DEC_INT, dopt)); }
+            switch (s.weighted({4, 1, 1})) { case 1: pu.items.pop_back(); break; case 2: pu.items.push_back(genDatum(s, D_DEC_INT, dopt)); break; default: break; }
+        } else
         switch (s.weighted({5, 2, 2, 3, 1, 1})) {
             case 0: break;
             case 1: if (!pu.items.empty()) pu.items.pop_back(); break;                                             // missing
@@ -176,7 +191,7 @@ static PCase decode(Src &s) {
             case 4: if (!pu.items.empty()) { pu.malformedAt = (int) s.range(0, pu.items.size() - 1); pu.malformed = genMalformed(s); } else { pu.items.push_back(genDatum(s, D_DEC_INT, dopt)); pu.malformedAt = 0; pu.malformed = genMalformed(s); } break;
             default: pu.trailingComma = true; break;
         }
-        if (pu.items.size() > 5) pu.items.resize(5);
+        if (!longList && pu.items.size() > 5) pu.items.resize(5);
         if (pu.malformedAt >= (int) pu.items.size()) pu.malformedAt = (int) pu.items.size() - 1;
         // an unterminated quote would pair up with a quote in a later item and become a valid string: keep it last
         if (pu.malformedAt >= 0 && (pu.malformed[0] == '"' || pu.malformed[0] == '\'')) pu.items.resize((size_t) pu.malformedAt + 1);
